@@ -23,23 +23,23 @@ func (o Opnd) arr(d DT) Arr { return mkArr(d, o.Shape, o.Codes) }
 
 // EWCase is one elementwise operation call.
 type EWCase struct {
-	Prop     string  `json:"prop"`
-	Fam      string  `json:"fam"` // arith | cmp | unary
-	Op       string  `json:"op"`
-	DT       string  `json:"dt"`
-	Form     string  `json:"form"` // TT | TS | ST (S: Go scalar) ; unary: T
-	Via      string  `json:"via"`  // pkg | method
-	Mode     string  `json:"mode"` // safe | unsafe | reuse | reuseA | reuseB | incr
-	SameType bool    `json:"same,omitempty"`
-	A        Opnd    `json:"a"`
-	B        *Opnd   `json:"b,omitempty"`
-	BDT      string  `json:"bdt,omitempty"` // when set: element type of B / the scalar (mismatch cells)
-	Scalar   int64   `json:"scalar,omitempty"`
-	ScT      bool    `json:"scalar_as_tensor,omitempty"` // the scalar operand is given as a scalar-shaped tensor (package functions only)
-	Dst      *Opnd   `json:"dst,omitempty"`
-	Lo       int64   `json:"lo,omitempty"` // Clamp bounds
-	Hi       int64   `json:"hi,omitempty"`
-	Engine   string  `json:"engine,omitempty"` // "" (StdEng) | "f64" | "f32"
+	Prop     string `json:"prop"`
+	Fam      string `json:"fam"` // arith | cmp | unary
+	Op       string `json:"op"`
+	DT       string `json:"dt"`
+	Form     string `json:"form"` // TT | TS | ST (S: Go scalar) ; unary: T
+	Via      string `json:"via"`  // pkg | method
+	Mode     string `json:"mode"` // safe | unsafe | reuse | reuseA | reuseB | incr
+	SameType bool   `json:"same,omitempty"`
+	A        Opnd   `json:"a"`
+	B        *Opnd  `json:"b,omitempty"`
+	BDT      string `json:"bdt,omitempty"` // when set: element type of B / the scalar (mismatch cells)
+	Scalar   int64  `json:"scalar,omitempty"`
+	ScT      bool   `json:"scalar_as_tensor,omitempty"` // the scalar operand is given as a scalar-shaped tensor (package functions only)
+	Dst      *Opnd  `json:"dst,omitempty"`
+	Lo       int64  `json:"lo,omitempty"` // Clamp bounds
+	Hi       int64  `json:"hi,omitempty"`
+	Engine   string `json:"engine,omitempty"` // "" (StdEng) | "f64" | "f32"
 	// Pre: an unrelated call that the library must refuse is made first, with a reuse / increment tensor
 	// that would fit THIS call ("reuse-dtype", "incr-dtype": wrong element type for the refused call;
 	// "reuse-size": wrong size). The refusal must leave nothing behind: this call neither touches nor
@@ -48,10 +48,10 @@ type EWCase struct {
 	// BSame: the second operand is the first one (the same *Dense passed twice); B repeats A's description
 	BSame bool `json:"bSame,omitempty"`
 	// AlsoUnsafe: UseUnsafe() is passed together with WithReuse (the reuse tensor is still the destination)
-	AlsoUnsafe bool `json:"alsoUnsafe,omitempty"`
-	Tol      float64 `json:"-"`
-	scTensor *tensor.Dense
-	scVal    interface{}
+	AlsoUnsafe bool    `json:"alsoUnsafe,omitempty"`
+	Tol        float64 `json:"-"`
+	scTensor   *tensor.Dense
+	scVal      interface{}
 }
 
 func (c *EWCase) NTKey() string {
